@@ -146,7 +146,11 @@ impl Desc {
                 )));
             }
 
-            if !label_names.insert(format!("${}", label_name)) {
+            // The const label names are in the set without prefix: a variable
+            // label must not reuse one of them either.
+            if label_names.contains(label_name)
+                || !label_names.insert(format!("${}", label_name))
+            {
                 return Err(Error::Msg(format!(
                     "duplicate variable label name {}",
                     label_name
